@@ -145,6 +145,26 @@ def gen(rng, nm, na):
             c["n_inc"] = kr + int((F(c["spec"]["ctrl"]["T"]) + 6) / dtq) + 10
             cases.append(c)
             continue
+        if j % 10 == 1:
+            # targeted: ideal communication (no ICT network, sensors without node); the sensor of a line fails for good (retry and
+            # reboot fail: manual repair) right before that line fails; the line is repaired first, the sensor comes back later:
+            # its return has to make the controller poll the section again
+            c["spec"]["ctrl"].pop("nodev", None); c["spec"]["ctrl"].pop("ict", None)
+            dtq = F(c["dt"]); k0 = rng.randint(2, 4); rep = rng.choice([F(1), F(2)])
+            fd = c["spec"]["feeders"][0]
+            if len(fd["parent"]) < 2:
+                fd["parent"].append(0)
+                for key, v in (("sw", 3), ("cust", 1), ("load", "1/50"), ("cost", 1)):
+                    fd[key].append(v)
+            kk = rng.randrange(1, len(fd["parent"]))
+            fd["sw"][kk] = 3                      # a section of its own, away from the breaker's
+            ln = f"F0L{kk}"
+            if F(c["spec"]["ctrl"]["T"]) == 0:
+                c["spec"]["ctrl"]["T"] = "1"
+            c["faults"] = {str(k0 - 1): [[f"S{ln}", "h" + str(rep + rng.choice([F(2), F(3)]))]], str(k0): [[ln, str(rep)]]}
+            c["n_inc"] = k0 + int((rep + 4 + F(c["spec"]["ctrl"]["T"]) * 2 + 6) / dtq) + 10
+            cases.append(c)
+            continue
         if j % 5 == 3:
             # targeted: every device reaches the controller through an ICT line of its own; one line fault; the ICT line of an
             # intelligent switch on the faulted line is out of service around the increment in which the repaired section is put back
